@@ -69,6 +69,9 @@ def bool_term_atom(t, pol=True, names=None):
         return (pol, "is(%s; %s)" % (show(t[1], names), t[2]))
     if t[0] == "bin":
         op, a, b = t[1], t[2], t[3]
+        if op in ("Eq", "Ne"):
+            a = a[2] if a[0] == "obj" else a
+            b = b[2] if b[0] == "obj" else b
         if a[0] == "const" and b[0] != "const":
             a, b = b, a
             op = {"Lt": "Gt", "Gt": "Lt", "Le": "Ge", "Ge": "Le"}.get(op, op)
